@@ -379,7 +379,7 @@ func runCheck(o checkOpts) checkOutcome {
 	for _, l := range lines {
 		say("%s\n", l)
 	}
-	wall := time.Since(t0).Seconds()
+	_ = time.Since(t0)
 	say("property %s tier %s: %d functions under contract, %d obligations, %d discharged, %d known findings, %d violations; load %.1fs gen %.1fs solve %.1fs (solver cpu %.1fs)\n",
 		o.property, o.tier, len(results), nObl, nDis, len(out.known), len(out.failed), tLoad, tGen, tSolve, solverTime)
 	if o.verbose {
@@ -391,7 +391,22 @@ func runCheck(o checkOpts) checkOutcome {
 	out.results = results
 	out.obligs = all
 	if !o.noEvidence {
-		writeEvidence(o, results, all, nObl, nDis, bySolver, solverTime, wall, out, undecided)
+		var canaries []canaryResult
+		if o.tier == "thorough" && exit == 0 && o.funcSub == "" && o.only == "" {
+			canaries = runCanaries(o)
+			det := 0
+			for _, c := range canaries {
+				if c.Status == "detected" {
+					det++
+				} else {
+					say("canary %s: %s\n", c.Seed, c.Status)
+				}
+			}
+			if len(canaries) > 0 {
+				say("canaries (stored property-breaking changes applied to a scratch copy; the check must fail): %d of %d reported\n", det, len(canaries))
+			}
+		}
+		writeEvidence(o, results, all, nObl, nDis, bySolver, solverTime, time.Since(t0).Seconds(), out, undecided, canaries)
 	}
 	return out
 }
@@ -461,7 +476,7 @@ func loadKnownFindings(path string) map[string]string {
 // ---------------------------------------------------------------------------------------
 // Evidence.
 
-func writeEvidence(o checkOpts, results []*FuncResult, all []*Oblig, nObl, nDis int, bySolver map[string]int, solverTime, wall float64, out checkOutcome, undecided []string) {
+func writeEvidence(o checkOpts, results []*FuncResult, all []*Oblig, nObl, nDis int, bySolver map[string]int, solverTime, wall float64, out checkOutcome, undecided []string, canaries []canaryResult) {
 	type fnEv struct {
 		Name        string         `json:"name"`
 		SourceHash  string         `json:"source_sha256_prefix"`
@@ -545,6 +560,16 @@ func writeEvidence(o checkOpts, results []*FuncResult, all []*Oblig, nObl, nDis 
 	}
 	if nObl == 0 {
 		cov["obligations"] = 0
+	}
+	if canaries != nil {
+		det := 0
+		for _, c := range canaries {
+			if c.Status == "detected" {
+				det++
+			}
+		}
+		cov["must_fail_canaries"] = map[string]interface{}{"run": len(canaries), "reported": det, "results": canaries,
+			"rule": "every stored seeded change of this property that the quick check is known to report is applied to a scratch copy of the working tree; the check must raise a violation there"}
 	}
 	ev := map[string]interface{}{
 		"property_id": o.property,
